@@ -27,6 +27,8 @@ func checkC03(c *Ctx) {
 	c03model(c)
 	segDistModel(c, "C03.R4")
 	checkAxisDiscipline(c, "C03.R5", "geom", "op")
+	premiseBounds(c, "C03.R6", "Area decides what is a hole with a pre-filter on the rings' boxes")
+	c.Floor("C03.R6", 16)
 	c.Floor("C03.R5", 2)
 	c.Floor("C03.R4", 2)
 	c.Floor("C03.R1", 8)
